@@ -26,6 +26,7 @@ var AllKnobs = []string{
 	"partialinterfaces", // a second subgraph declares an interface with its id field only and returns it
 	"extinterfacefields", // an interface field of an entity is owned by another subgraph (@external in the interface's home)
 	"unresolvable",      // reference-only entity stubs are declared @key(resolvable: false)
+	"keyhop",            // an extension subgraph declares only the second key (needs multikeys)
 	// universe
 	"nulls", "errors",
 	// operations
@@ -103,6 +104,7 @@ type gType struct {
 	subs  []int            // subgraphs that declare the type with ownership (entities: >= 1; locals: home)
 	keys  []string         // entity keys, primary first
 	key2  []int            // subgraphs that also declare the second key
+	hop   []int            // subgraphs (subset of key2, not home) that declare ONLY the second key
 	owner map[string][]int // field -> subgraphs declaring it non-external (keys: all subs)
 	isKey map[string]bool  // top-level key fields of the primary key
 }
@@ -336,6 +338,11 @@ func GenConfig(r *common.Rand, k Knobs) *Config {
 						t.key2 = append(t.key2, s)
 					}
 				}
+				// key hop: one extension subgraph knows the entity by the second key only, so
+				// reaching it from a subgraph that has the primary key needs a fetch of sku first
+				if k["keyhop"] && len(t.key2) >= 2 && r.Chance(1, 2) {
+					t.hop = []int{t.key2[1+r.Pick(len(t.key2)-1)]}
+				}
 			}
 		}
 	}
@@ -347,7 +354,7 @@ func GenConfig(r *common.Rand, k Knobs) *Config {
 			h := r.Pick(g.nSub)
 			var cands []*gType
 			for _, t := range g.objs {
-				if (t.cat == catEntity || t.cat == catLocal) && hasInt(t.subs, h) {
+				if (t.cat == catEntity || t.cat == catLocal) && hasInt(t.subs, h) && !hasInt(t.hop, h) {
 					cands = append(cands, t)
 				}
 			}
@@ -399,6 +406,12 @@ func GenConfig(r *common.Rand, k Knobs) *Config {
 			ga := &gAbstract{def: idef, home: h}
 			if k["partialinterfaces"] && idef.Field("id") != nil && g.nSub > 1 && r.Chance(1, 2) {
 				ga.partial = []int{(h + 1 + r.Pick(g.nSub-1)) % g.nSub}
+				for _, t := range impls {
+					if hasInt(t.hop, ga.partial[0]) {
+						ga.partial = nil
+						break
+					}
+				}
 			}
 			g.abs = append(g.abs, ga)
 			super.Types = append(super.Types, idef)
@@ -443,7 +456,11 @@ func GenConfig(r *common.Rand, k Knobs) *Config {
 				continue
 			}
 			if t.isKey[fd.Name] {
-				t.owner[fd.Name] = append([]int(nil), t.subs...)
+				for _, s := range t.subs {
+					if !hasInt(t.hop, s) {
+						t.owner[fd.Name] = append(t.owner[fd.Name], s)
+					}
+				}
 				continue
 			}
 			if fd.Name == "sku" {
@@ -556,7 +573,7 @@ func GenConfig(r *common.Rand, k Knobs) *Config {
 			}
 			var cands []*gType
 			for _, o := range g.objs {
-				if o != t && ((o.cat == catEntity && o.keys[0] == "id") || o.cat == catValue) {
+				if o != t && ((o.cat == catEntity && o.keys[0] == "id" && len(o.hop) == 0) || o.cat == catValue) {
 					cands = append(cands, o)
 				}
 			}
